@@ -61,3 +61,39 @@ def enum_locs(G, K, strands=("+", "-")):
             for combo in itertools.combinations_with_replacement(range(len(sb)), n):
                 out.append(([list(sb[i]) for i in combo], st))
     return out
+
+
+_WARM_SKIP = {"cache_clear", "cache_info", "cache_parameters", "to_biopython", "to_feature_location", "to_compound_location",
+              "mro", "update_parent", "from_dict", "from_location", "from_single_intervals"}
+
+
+def warm(obj, rnd=None, share=1.0):
+    """Ask an object every public argument-free question (properties and methods without required parameters), ignoring
+    answers and exceptions.  Used to put operands into an arbitrary 'already used' state before the calls that are
+    judged: no answer may depend on what was asked before."""
+    import inspect
+
+    cls = type(obj)
+    for name in dir(cls):
+        if name.startswith("_") or name in _WARM_SKIP:
+            continue
+        if rnd is not None and rnd.random() > share:
+            continue
+        try:
+            attr = inspect.getattr_static(cls, name)
+            if isinstance(attr, property) or hasattr(attr, "fget"):
+                getattr(obj, name)
+                continue
+            fn = getattr(obj, name)
+            if not callable(fn):
+                continue
+            sig = inspect.signature(fn)
+            if any(p.default is inspect.Parameter.empty and p.kind in (p.POSITIONAL_ONLY, p.POSITIONAL_OR_KEYWORD,
+                                                                       p.KEYWORD_ONLY) for p in sig.parameters.values()):
+                continue
+            r = fn()
+            if inspect.isgenerator(r):
+                list(r)
+        except Exception:
+            pass
+    return obj
